@@ -10,6 +10,9 @@ claimed={
 "C13":dict(text="Bounded symbolic model checking: for every input of length <=L accepted by the real recursive parser, probe/open/re-parse/typed re-read agreement and independence from an arbitrary symbolic prefix (<=3 bytes) are asserted and discharged by z3 over all byte values.",
   design="§4 C13", technique="SSA symbolic execution + SMT (z3), bounded by input and prefix length; native replay of models",
   note=NOTE_COMMON+" L<=6 (thorough 10), prefix 1..3 bytes. Outside: longer inputs/prefixes."),
+ "C10":dict(text="Bounded symbolic model checking with unbounded value domain: every scalar encoder/decoder pair is executed symbolically on a full-width symbolic value (all 2^64 etc. bit patterns; floats through the SMT FloatingPoint theory) behind a symbolic buffer prefix; value equality, encoder size = appended bytes = decoder size, and the stored-width x read-width matrix (value iff representable, else error) are discharged by z3.",
+  design="§4 C10", technique="SSA symbolic execution + SMT bit-vector/floating-point (z3); full value range, byte-string lengths case-split; native replay of models",
+  note=NOTE_COMMON+" Values unbounded (full width). Byte strings/strings: lengths 0,1,2,252..254 (thorough adds 31..33, 251..256, 65534..65537), contents symbolic in first/last 16 bytes. Outside: other lengths; inexact in-range float64->float32 narrowing."),
 }
 na={p:"check not yet built (work in progress, see DESIGN.md)" for p in props}
 na["C15"]="not applicable to solver-based checking: the parser is a goyacc LALR table interpreter over text/scanner building a pointer-rich tree; with symbolic characters the scanner's rune loops dominate, with symbolic tokens the deciding step would be enumeration, and the oracle would need a second parser (DESIGN.md §4 C15)"
